@@ -3,6 +3,7 @@ package props
 import (
 	"crypto/sha256"
 	"encoding/binary"
+	"encoding/json"
 	"fmt"
 	"strings"
 	"testing"
@@ -90,15 +91,60 @@ func c03Property(t *rapid.T) {
 		}
 	}
 
+	// master rule of every chain as the harness knows it: it changes only when an update proposal is approved
+	ruleOf := map[string]string{"chainH": "happy", "chainL": "happy", "chainW": "wat", "chainU": "wat"}
+	usable := map[string]bool{"chainH": true, "chainW": true, "chainU": true}
+	happyAddr := "0x00000000000000000000000000000000000000a2"
+	chainStatus := func(c string) string {
+		r := w.ViewBVM(constant.AppchainMgrContractAddr, "GetAppchain", pb.String(c))
+		var v struct {
+			Status string `json:"status"`
+		}
+		_ = json.Unmarshal(r.Ret, &v)
+		return v.Status
+	}
+	ruleEpisodes := 0
+	// ruleEpisode: the chain's admin proposes the other rule as master rule, the proposal is approved or rejected, a
+	// chain left frozen by the attempt is activated again. Only an approved update changes which rule decides.
+	ruleEpisode := func() {
+		chain := rapid.SampledFrom([]string{"chainW", "chainU", "chainH"}).Draw(t, "ruleChain")
+		cand, candAddr := "happy", happyAddr
+		if ruleOf[chain] == "happy" {
+			cand, candAddr = "wat", tpl.Data["rule"]
+		}
+		k := key(chain)
+		r := w.Block(w.BVM(k, constant.RuleManagerContractAddr, "UpdateMasterRule", pb.String(chain), pb.String(candAddr), pb.String("r")))[0]
+		if !r.IsSuccess() && strings.Contains(string(r.Ret), "not") {
+			// the candidate is not in the chain's rule list yet
+			w.Block(w.BVM(k, constant.RuleManagerContractAddr, "RegisterRule", pb.String(chain), pb.String(candAddr), pb.String("http://rule")))
+			r = w.Block(w.BVM(k, constant.RuleManagerContractAddr, "UpdateMasterRule", pb.String(chain), pb.String(candAddr), pb.String("r")))[0]
+		}
+		if !r.IsSuccess() {
+			ops = append(ops, fmt.Sprintf("  rule episode on %s: UpdateMasterRule(%s) refused: %.80s", chain, cand, r.Ret))
+			return
+		}
+		approve := rapid.Bool().Draw(t, "ruleApprove")
+		w.VoteThrough(sim.ProposalID(r), approve, 3)
+		if approve {
+			ruleOf[chain] = cand
+		}
+		if chainStatus(chain) == "frozen" {
+			ar := w.Block(w.BVM(k, constant.AppchainMgrContractAddr, "ActivateAppchain", pb.String(chain), pb.String("r")))[0]
+			if ar.IsSuccess() {
+				w.VoteThrough(sim.ProposalID(ar), true, 3)
+			}
+		}
+		usable[chain] = chainStatus(chain) == "available"
+		ruleEpisodes++
+		ops = append(ops, fmt.Sprintf("  rule episode on %s: update to %s approved=%v -> master rule %s, chain %s", chain, cand, approve, ruleOf[chain], chainStatus(chain)))
+	}
+
 	genCase := func() *c03Case {
 		c := &c03Case{}
 		switch rapid.SampledFrom([]string{"local", "local", "local", "local", "remote", "remote", "direct", "unregistered"}).Draw(t, "entry") {
 		case "local":
 			src := rapid.SampledFrom([]string{"chainH", "chainW", "chainU", "chainL"}).Draw(t, "src")
-			rule := "wat"
-			if src == "chainH" || src == "chainL" {
-				rule = "happy"
-			}
+			rule := ruleOf[src]
 			dst := "chainH"
 			dsvc := "s1"
 			if src == "chainH" {
@@ -111,7 +157,7 @@ func c03Property(t *rapid.T) {
 			ib := &pb.IBTP{From: c.from, To: c.to, Index: idx, TimeoutHeight: 20, Proof: hash, Type: pb.IBTP_INTERCHAIN}
 			c.tx = w.IBTP(key(src), ib, proof)
 			c.expectValid = valid
-			c.mustAccept = valid && src != "chainL"
+			c.mustAccept = valid && src != "chainL" && usable[src] && usable["chainH"]
 			c.desc = fmt.Sprintf("IBTP request %s->%s idx=%d rule=%s proof=%s", c.from, c.to, idx, rule, class)
 			classesSeen["local/"+rule+"/"+class] = true
 		case "remote":
@@ -218,6 +264,9 @@ func c03Property(t *rapid.T) {
 	nBlocks := rapid.IntRange(1, 4).Draw(t, "blocks")
 	nonTrivial := false
 	for bi := 0; bi < nBlocks; bi++ {
+		if rapid.IntRange(0, 3).Draw(t, "ruleEpisode") == 0 {
+			ruleEpisode()
+		}
 		// blocks of up to 14 transactions: proofs are verified in (up to five) position groups, so the IBTPs have to
 		// appear at every position of blocks of every size, not only in the first five
 		n := rapid.IntRange(1, 14).Draw(t, "ntx")
@@ -328,6 +377,9 @@ func c03Property(t *rapid.T) {
 	}
 	st := sim.StatsFor("C03")
 	var classes []string
+	if ruleEpisodes > 0 {
+		classesSeen["master-rule-update-episode"] = true
+	}
 	var ks []string
 	for k := range classesSeen {
 		classes = append(classes, k)
